@@ -37,6 +37,8 @@ def shards(tier):
         {"name": "merge-conflict", "kind": "merge", "conflict_bias": True, "examples": 1000 * n},
         {"name": "raire-mem", "kind": "raire", "file": False, "examples": 1000 * n},
         {"name": "raire-file", "kind": "raire", "file": True, "examples": 300 * n},
+        # thousands of rows (the generated rows repeated; every card's rows lie thousands of rows apart): few cases
+        {"name": "raire-mem-big", "kind": "raire", "file": False, "examples": 4 * n, "big": True},
     ]
 
 
@@ -78,6 +80,7 @@ def strategy(shard):
                 ranking = ranking[: j + 1] + [draw(st.sampled_from(ranking[: j + 1]))] + ranking[j + 1:]
             ballots.append([c["id"], bid, ranking])
         return {"kind": "raire", "contests": contests, "ballots": ballots, "file": shard["file"],
+                "size": (draw(st.sampled_from([8300, 9000, 12500, 17000])) if (shard.get("big") and ballots) else None),
                 "phantom": draw(st.booleans()) if not shard["file"] else False}
 
     return raire()
@@ -172,6 +175,13 @@ def evaluate(case, out):
         return
 
     # ---- RAIRE reader
+    if case.get("size"):
+        # the rows repeated up to the given number; the identifiers of the first half of the repetitions come round again in
+        # the second half, so the rows of one card lie thousands of rows apart
+        nb, size = len(case["ballots"]), case["size"]
+        R = max(1, (size // nb) // 2)
+        case = dict(case, ballots=[[case["ballots"][j % nb][0], f"{case['ballots'][j % nb][1]}-{(j // nb) % R}", case["ballots"][j % nb][2]] for j in range(size)])
+        out.cls("thousands-of-rows")
     rows = [[str(len(case["contests"]))]]
     for c in case["contests"]:
         rows.append(["Contest", c["id"], str(len(c["cands"]))] + list(c["cands"]))
